@@ -1465,6 +1465,11 @@ class Interp(object):
         except TypeError as ex:
             if isinstance(a, (P, int, Fraction)) and isinstance(b, (P, int, Fraction)):
                 raise
+            plain = (type(None), str, bytes, list, tuple, dict, set, int, float, bool, complex, Fraction, P, Obj)
+            if not (isinstance(a, plain) and isinstance(b, plain)):
+                # an abstract value (array model, opaque term) that does not implement the operation: a gap of the model, not a
+                # TypeError of the program
+                raise CheckerError('line %s: %s between %s and %s is not modelled' % (getattr(node, 'lineno', '?'), name, type(a).__name__, type(b).__name__))
             raise SymRaise('TypeError', (str(ex),), node)
         except ZeroDivisionError:
             raise SymRaise('ZeroDivisionError', (), node)
